@@ -361,7 +361,10 @@ def run_tg(sc, s, res, data):
     path = s.p("in.TextGrid")
     name = sc["tier_name"] or "transcript"
     tier_id = {"default": 0, "idx": 0, "name": name}[sc["read_by"]]
-    fill = "FILL" if sc["fill"] else None
+    # the label unlabelled gaps get: a word, or the empty label (Praat's own way of writing them); the choice is
+    # derived from the scenario so that older scenarios keep their derivation
+    fill = (["FILL", "FILL", ""][len(sc["items"]) % 3] if sc["fill"] else None)
+    filling = fill is not None
     prime(s, path, text, lambda p: data.read_textgrid(p, tier_id, fill), res)
     with open(path, "w") as f:
         f.write(text)
@@ -376,7 +379,7 @@ def run_tg(sc, s, res, data):
         res.violate("stream.read-differs", "read_textgrid(path) != read_textgrid(open file)", fmt="tg")
         return
     want = list(items)
-    if fill and not kwargs.get("point_tier", inferred_point):
+    if filling and not kwargs.get("point_tier", inferred_point):
         filled, t = [], t0
         for tok, a, b in want:
             if t < a - 1e-9:
@@ -384,12 +387,12 @@ def run_tg(sc, s, res, data):
             filled.append((tok, a, b))
             t = b
         want = filled
-    elif fill:
+    elif filling:
         want = None  # gap filling between points: not judged
     if want is not None:
         ok = len(got) == len(want) and all(g[0] == w[0] and abs(g[1] - w[1]) <= 1e-9 and abs(g[2] - w[2]) <= 1e-9 for g, w in zip(got, want))
         if not ok:
-            res.violate("tg.round-trip", f"write_textgrid then read_textgrid (precision {prec}{', gaps filled' if fill else ''}): read {got}, wrote {want}", spans_10=any(x[1] < 10 <= y[1] for x in items for y in items))
+            res.violate("tg.round-trip", f"write_textgrid then read_textgrid (precision {prec}{', gaps filled with ' + repr(fill) if filling else ''}): read {got}, wrote {want}", spans_10=any(x[1] < 10 <= y[1] for x in items for y in items))
             return
     if abs(gx0 - t0) > 0.5 * unit + 1e-9 or abs(gx1 - t1) > 0.5 * unit + 1e-9:
         res.violate("tg.bounds", f"tier bounds read back as ({gx0}, {gx1}), wrote ({t0}, {t1})")
